@@ -4,21 +4,42 @@ func init() {
 	ip := "(*" + interpPath + ".Interpreter)."
 	props["C12"] = &Prop{
 		ID: "C12", PkgDir: "interp", PkgPath: interpPath, PkgName: "interp",
-		Harness:    []string{"interp_common.go", "C12.go"},
-		Instrument: runidInstr,
+		Harness:    []string{"interp_common.go", "big_common.go", "C12.go", "C12_rules.go"},
+		Instrument: runidInstr, ValidateRun: "^TestVerifValidateC12$", TestFiles: []string{"C12_validate.go.txt"},
 		Redirects: map[string]string{
 			interpPath + ".genGlobalVars": "vmGenGlobalVarsFail",
+			"(*" + interpPath + ".node).cfgErrorf": "vmRuleErrorf",
+			interpPath + ".vhGoAcceptsBinary": "vmGoAcceptsBinary", interpPath + ".vhGoAcceptsUnary": "vmGoAcceptsUnary", interpPath + ".vhGoAcceptsAssign": "vmGoAcceptsAssign", interpPath + ".vhGoAcceptsConst": "vmGoAcceptsConst",
 			ip + "parse": "vmParse", ip + "ast": "vmAst", ip + "gtaRetry": "vmGtaRetry", ip + "cfg": "vmCfg", ip + "Execute": "vmExecute",
 		},
 		Obligs: func(tier string) []Oblig {
-			return []Oblig{
+			r := []Oblig{
 				{Harness: "vh_C12_eval", Unroll: 8, KeepRedirects: []string{"vmParse", "vmAst", "vmGtaRetry", "vmCfg", "vmExecute"}},
 				{Harness: "vh_C12_execute", Unroll: 8, KeepRedirects: []string{"vmGenGlobalVarsFail"}},
 			}
+			rules := []string{"vmRuleErrorf", "vmGoAcceptsBinary", "vmGoAcceptsUnary", "vmGoAcceptsAssign", "vmGoAcceptsConst"}
+			for op := 0; op < 19; op++ {
+				r = append(r, Oblig{Harness: "vh_C12_binary", Unroll: 24, KeepRedirects: rules, Globals: map[string]int{"vhRuleOp": op}})
+			}
+			for op := 0; op < 4; op++ {
+				r = append(r, Oblig{Harness: "vh_C12_unary", Unroll: 24, KeepRedirects: rules, Globals: map[string]int{"vhRuleOp": op}})
+			}
+			r = append(r, Oblig{Harness: "vh_C12_assign", Unroll: 24, KeepRedirects: rules})
+			for op := 0; op < 19; op++ {
+				for ck := 0; ck <= 2; ck++ {
+					for left := 0; left <= 1; left++ {
+						if left == 1 && (op == 9 || op == 10) {
+							continue // constant << variable takes its type from the context: outside
+						}
+						r = append(r, Oblig{Harness: "vh_C12_binconst", Unroll: 24, KeepRedirects: rules, Globals: map[string]int{"vhRuleOp": op, "vhConstKind": ck, "vhConstLeft": left}})
+					}
+				}
+			}
+			return r
 		},
-		Bounds:      []string{"every combination of outcomes (error / success) of the stages parse, ast, gtaRetry, cfg; ast may also yield no root"},
+		Bounds:      []string{"every combination of outcomes (error / success) of the stages parse, ast, gtaRetry, cfg; ast may also yield no root", "type rules: 19 binary and 4 unary operators, assignment, on variables of the 17 predeclared basic types; one operand an untyped constant: integer of any value with |v| <= 2^70, true, or a string, on either side"},
 		Assumptions: []string{"the compile stages are replaced by models that fail on command (their own type rules are outside)", "Execute replaced by a counter (eval obligation); in the Execute obligation the real Execute runs with genGlobalVars failing on command"},
 		Stubs:       []string{"(*Interpreter).parse", "(*Interpreter).ast", "(*Interpreter).gtaRetry", "(*Interpreter).cfg", "(*Interpreter).Execute"},
-		Outside:     []string{"the ~30 type rules of typecheck.go / type.go", "never rejecting a well-typed program", "code that cfg itself runs while compiling (source imports)", "EvalPath/importSrc"},
+		Outside:     []string{"type rules beyond binary/unary/assignment on basic types (composite and named types, conversions, builtins, literals, call arguments, channel directions)", "untyped float/complex/rune constants", "the checker's call sites in cfg.go", "code that cfg itself runs while compiling (source imports)", "EvalPath/importSrc"},
 	}
 }
